@@ -695,7 +695,10 @@ def worker_lifecycle(job, f):
         # reference = the call on a freshly (re)defined object; where that cannot succeed today, the call after the
         # shortest sequence the specification says makes it succeed; last resort: after calc_k0 (the suite's order)
         cands = [list(path)] if path else []
-        for alt in (pre + [m], pre + ["calc_k0", m]):
+        alts = [pre + ["calc_k0", m]]
+        if not (cands and kind in ("Cyl", "Cone")):     # a shell kernel handed F = None kills the interpreter
+            alts.insert(0, pre + [m])
+        for alt in alts:
             if alt not in cands and all(q in Lab.table(kind) for q in alt):
                 cands.append(alt)
         r = None
